@@ -551,7 +551,37 @@ func (m *Machine) callBuiltin(caller *frame, pos token.Pos, fn *ssa.Builtin, arg
 		}
 		panic(fmt.Sprintf("cap: illegal operand: %T", args[0]))
 	case "min", "max":
-		m.inconclusive("builtin %s unsupported", fn.Name())
+		acc := args[0]
+		for _, x := range args[1:] {
+			at, ok1 := acc.(*Term)
+			xt, ok2 := x.(*Term)
+			if !ok1 || !ok2 || at.S.K != SBV {
+				m.inconclusive("builtin %s on non-integer operands", fn.Name())
+			}
+			_, signed, _ := basicInfo(fn.Type().(*types.Signature).Params().At(0).Type())
+			var lt *Term
+			if signed {
+				lt = m.tt.BvCmp(OBvSlt, xt, at)
+			} else {
+				lt = m.tt.BvCmp(OBvUlt, xt, at)
+			}
+			if fn.Name() == "max" {
+				lt = m.tt.Not(m.tt.Or(lt, m.tt.Eq(xt, at)))
+				// x > acc
+			}
+			acc = m.tt.Ite(lt, xt, at)
+		}
+		return acc
+	case "clear":
+		switch x := args[0].(type) {
+		case *Map:
+			if x != nil {
+				x.Entries = nil
+			}
+		case Slice:
+			m.inconclusive("clear of a slice unsupported")
+		}
+		return nil
 	case "panic":
 		panic(targetPanic{args[0]})
 	case "recover":
